@@ -41,7 +41,7 @@ func (tr trial) String() string {
 	return fmt.Sprintf("workers=%v disruptor=%+v reorder=%v", tr.workers, tr.dis, tr.reorder)
 }
 
-var opNames = []string{"Noop", "Status", "Fetch", "Search", "UIDSearch", "AppendSync", "AppendNonSync", "List", "Capability", "Caps", "State", "Mailbox", "Enable", "Store", "Idle"}
+var opNames = []string{"Noop", "Status", "Fetch", "Search", "UIDSearch", "AppendSync", "AppendNonSync", "List", "Capability", "Caps", "State", "Mailbox", "Enable", "Store", "Idle", "Login"}
 
 // server is the scripted peer: answers every command promptly.
 type server struct {
@@ -50,6 +50,7 @@ type server struct {
 	mu        sync.Mutex
 	tags      map[string]int
 	responses int
+	logins    int
 	inflight  *int64
 	atDisrupt int64
 	errs      []string
@@ -65,7 +66,18 @@ func (sv *server) reply(cmd *script.Command) string {
 	case "CAPABILITY":
 		return "* CAPABILITY " + caps + "\r\n" + tag + " OK done\r\n"
 	case "LOGIN":
-		return tag + " OK [CAPABILITY " + caps + "] in\r\n"
+		// the first LOGIN carries the capabilities; later ones (issued by
+		// workers) do not, which makes the client drop its cached capabilities
+		// and refresh them with a CAPABILITY command of its own, concurrently
+		// with everything else
+		sv.mu.Lock()
+		sv.logins++
+		first := sv.logins == 1
+		sv.mu.Unlock()
+		if first {
+			return tag + " OK [CAPABILITY " + caps + "] in\r\n"
+		}
+		return tag + " OK in\r\n"
 	case "SELECT":
 		return "* 5 EXISTS\r\n* FLAGS (\\Seen)\r\n" + tag + " OK [READ-WRITE] done\r\n"
 	case "STATUS":
@@ -277,8 +289,11 @@ func runTrial(t fataler, tr trial) int64 {
 						idle.Close()
 						return idle.Wait()
 					})
+				case "Login":
+					wait(who, op, func() error { return c.Login("u", "p").Wait() })
 				case "Caps":
-					_ = c.Caps()
+					// blocks until a pending capability refresh completes
+					wait(who, op, func() error { _ = c.Caps(); return nil })
 				case "State":
 					_ = c.State()
 				case "Mailbox":
@@ -379,8 +394,10 @@ func TestReplayScenarios(t *testing.T) {
 		runTrial(t, trial{workers: [][]string{{"Noop", "Status"}, {"Capability", "Noop"}, {"Status", "Noop"}, {"Noop"}}, dis: disruptor{kind: "server-close", after: 2 + i%4}})
 		runTrial(t, trial{workers: [][]string{{"Enable", "Noop"}, {"Search", "Search"}, {"UIDSearch", "Caps"}}, dis: disruptor{kind: "none"}})
 		runTrial(t, trial{workers: [][]string{{"Fetch", "Noop"}, {"AppendSync"}, {"State", "Mailbox", "List"}}, dis: disruptor{kind: "client-close", after: 3 + i%3}, reorder: true})
-		ev.EvalN(3)
+		runTrial(t, trial{workers: [][]string{{"Login", "Noop"}, {"Search", "Search", "Search"}, {"Caps", "UIDSearch", "Caps"}, {"Idle", "Caps"}}, dis: disruptor{kind: "none"}})
+		ev.EvalN(4)
 	}
+	ev.NonTrivial("scenario:capability-refresh-vs-commands")
 	ev.NonTrivial("scenario:registration-vs-connection-loss")
 	ev.NonTrivial("scenario:enable-vs-search")
 	ev.NonTrivial("scenario:fetch-append-vs-client-close")
